@@ -30,7 +30,8 @@ Encoding of a declaration (all decimal integers):
   repr items     (0,0) start a new #[repr(..)] attribute  (1,0) C  (2,0) transparent  (3,k) integer repr k
                  (0 u8 1 i8 2 u16 3 i16 4 u32 5 i32 6 u64 7 i64)  (4,0) packed  (5,N) packed(N)  (6,N) align(N)
   NV variants    structs/unions have exactly one "variant" (their field list); for M=5 it is the sized part
-  field types    FIELDS below; 99 = the type parameter T
+  field types    FIELDS below; 99 = the type parameter T; 97 = the tuple (T, u8); 98 = the tuple (u8, T)  (the parameter
+                 INSIDE a tuple field: the library's `impl Align1 for (T1, .., Tn)` is selected at the instantiation)
   NU, u          only for M=5: the unsized fields (UFIELDS below); the first one carries #[unsized_start]
 Observation: [0] rejected by the compiler, or [1, align_of, size_of, sum_of_field_sizes, npat, pat_1 .. pat_npat].
 """
@@ -77,9 +78,27 @@ FIELDS[16] = ("star_frame::data_types::PackedValueChecked<bool>", 1, 1, "bool")
 FIELDS[17] = ("star_frame::data_types::PackedValueChecked<u16>", 2, 1, "any")
 for _n in range(0, 13):
     FIELDS[20 + _n] = ("[u8; %d]" % _n, _n, 1, "any")
+# tuple field types.  star_frame/src/align1.rs 40-66: `unsafe impl<T1..Tn> Align1 for (T1, .., Tn) where EVERY Ti: Align1`;
+# bytemuck implements Zeroable for tuples but neither Pod nor NoUninit nor CheckedBitPattern: no zero_copy flavour and no
+# generated sized part may accept one (validity kind "tuple": there is no validator to compare with, acceptance itself
+# is the failure).  sizes / alignments: repr(Rust) aggregates (the sum rounded up to the largest element alignment)
+FIELDS[18] = ("(u8, u8)", 2, 1, "tuple")
+FIELDS[19] = ("(u8,)", 1, 1, "tuple")
+FIELDS[33] = ("(u16,)", 2, 2, "tuple")
+FIELDS[34] = ("(u16, u8)", 4, 2, "tuple")
+FIELDS[35] = ("(u8, u16)", 4, 2, "tuple")
+FIELDS[36] = ("(u64, u8)", 16, 8, "tuple")
+FIELDS[37] = ("(u8, u64)", 16, 8, "tuple")
+FIELDS[38] = ("(u8, bool, u8)", 3, 1, "tuple")
+FIELDS[39] = ("(u32, u8, u8)", 8, 4, "tuple")
+FIELDS[40] = ("(u8, u16, u8)", 4, 2, "tuple")
+TUPLE_FIELDS = [18, 19, 33, 34, 35, 36, 37, 38, 39, 40]
 T_CODE = 99
-ALIGN1_FIELDS = [0, 1, 2, 3, 4, 5, 6, 7, 8, 9, 15, 16, 17, 20, 21, 23, 24, 28]
-WIDE_FIELDS = [10, 11, 12, 13, 14]
+T_U8_CODE = 97                    # the tuple (T, u8)
+U8_T_CODE = 98                    # the tuple (u8, T)
+PARAM_CODES = (T_U8_CODE, U8_T_CODE, T_CODE)      # field codes that mention the type parameter (never instantiations)
+ALIGN1_FIELDS = [0, 1, 2, 3, 4, 5, 6, 7, 8, 9, 15, 16, 17, 20, 21, 23, 24, 28, 18, 19, 38]
+WIDE_FIELDS = [10, 11, 12, 13, 14, 33, 34, 35, 36, 37, 39, 40]
 
 #   code: (rust type, may be zero sized)
 UFIELDS = {
@@ -112,7 +131,11 @@ RULE = ("declarations drawn from the grammar: macro {derive(Align1), zero_copy, 
         "one type parameter, a chosen instantiation and a bound style: none | inline `T: Copy` | `where T: Copy` clause} x representation {none, C, transparent, u8/i8/u16/u32/u64, packed, "
         "packed(1|2|4), align(1|2|4|8) and combinations of one base with up to two modifiers, in one or two #[repr] "
         "attributes, any order} x 0-4 fields from {u8, bool, (), i8, [u8;N], PackedValue<u64|u16>, Pubkey, a u8 enum, "
-        "NonZeroU8, [bool;2] | u16, u32, u64, u128, [u16;2]}; unsized structs additionally draw 1-3 unsized fields from "
+        "NonZeroU8, [bool;2], (u8, u8), (u8,), (u8, bool, u8) | u16, u32, u64, u128, [u16;2], (u16,), (u16, u8), (u8, u16), (u64, u8), "
+        "(u8, u64), (u32, u8, u8), (u8, u16, u8)}, generic declarations also use the parameter inside a tuple field, (T, u8) / (u8, T); "
+        "a systematic slice of derive(Align1) x {no repr, C, transparent, C packed} x {struct, tuple struct} x every tuple type "
+        "alone / first / last, of (T, u8) / (u8, T) with T = u8 | u16 | u64, and of every zero-copy flavour on each tuple type; "
+        "unsized structs additionally draw 1-3 unsized fields from "
         "{List<u8>, RemainingBytes, u8, (), a nested struct ending in RemainingBytes, a nested struct ending in a list, "
         "[u8;0], PackedValue<u64>, List<PackedValue<u64>>, bool, and three unsized enums (#[unsized_type] #[repr(u8)] enum "
         "with a unit default variant plus: a List<u8> variant and a RemainingBytes variant | a List<u8> variant only | a "
@@ -135,7 +158,10 @@ TRUSTED = [
 ]
 ASSUMPTIONS = [
     "field types' own Align1 / CheckedBitPattern impls are sound (hypotheses of the theorems); the table of field types "
-    "used by the correspondence is checked against rustc on every run (align_of/size_of are printed by the examples)",
+    "used by the correspondence is checked against rustc on every run (align_of/size_of are printed by the examples). "
+    "for tuple-typed fields the Align1 hypothesis follows from the elements' (C19_tuple_align1_sound), and the model's "
+    "menu satisfies it (C19_field_menu_align1_sound): a library impl that certifies a wider tuple is a disagreement and "
+    "a direct failure",
     "repr(Rust) structs have alignment exactly max field alignment and no interior padding after rustc's reordering "
     "(the Reference only promises >=); tied by the correspondence",
     "an unsized struct counts as rejected when a program that opens it through the wrapper API "
@@ -193,7 +219,7 @@ def dec(ints):
         return None
     for v in variants:
         for x in v:
-            if x != T_CODE and x not in FIELDS:
+            if x not in PARAM_CODES and x not in FIELDS:
                 return None
     if g and (g - 1) not in FIELDS:
         return None
@@ -234,19 +260,43 @@ def repr_attrs(reprs):
 
 
 def fty(code):
-    return "T" if code == T_CODE else FIELDS[code][0]
+    return {T_CODE: "T", T_U8_CODE: "(T, u8)", U8_T_CODE: "(u8, T)"}.get(code) or FIELDS[code][0]
 
 
-def inst(d, code):
-    """field code after instantiating T"""
-    return d["generic"] - 1 if code == T_CODE else code
+def _round_up(x, a):
+    return (x + a - 1) // a * a
+
+
+def tuple_with_u8(t, first):
+    """the FIELDS-style entry of the tuple (T, u8) (first) / (u8, T) for T = the entry t"""
+    al = max(t[2], 1)
+    return ("(%s, u8)" % t[0] if first else "(u8, %s)" % t[0], _round_up(t[1] + 1, al), al, "tuple")
+
+
+def finfo(d, code):
+    """(rust type, size, align, validity kind) of a field after instantiating T"""
+    if code == T_CODE:
+        return FIELDS[d["generic"] - 1]
+    if code in (T_U8_CODE, U8_T_CODE):
+        return tuple_with_u8(FIELDS[d["generic"] - 1], code == T_U8_CODE)
+    return FIELDS[code]
+
+
+def concrete(code, inst_code):
+    """the FIELDS code of a field after instantiating T with inst_code, None when the menu has no such type"""
+    if code == T_CODE:
+        return inst_code
+    if code in (T_U8_CODE, U8_T_CODE):
+        name = tuple_with_u8(FIELDS[inst_code], code == T_U8_CODE)[0]
+        return next((c for c, e in FIELDS.items() if e[0] == name), None)
+    return code
 
 
 def rust_source(ints):
     d = dec(ints)
     m, f, g = d["macro"], d["form"], d["generic"]
     attrs = repr_attrs(d["reprs"])
-    uses_t = any(x == T_CODE for v in d["variants"] for x in v)
+    uses_t = any(x in PARAM_CODES for v in d["variants"] for x in v)
     lines = ["// generated by lib/props/c19.py -- case " + " ".join(str(x) for x in ints),
              "#![allow(dead_code, unused_imports, unused_attributes, unused_variables, non_camel_case_types)]",
              "use star_frame::prelude::*;", "use core::mem::{align_of, size_of};", ""]
@@ -312,7 +362,7 @@ def rust_source(ints):
         main.append("    let opened = star_frame::unsize::wrapper::SharedWrapper::new::<%s%s>(&data).is_ok();" % (name, gen_use))
         main.append("    let _ = opened;")
         if has_sized:
-            sizes = " + ".join("size_of::<%s>()" % FIELDS[inst(d, x)][0] for x in d["variants"][0])
+            sizes = " + ".join("size_of::<%s>()" % finfo(d, x)[0] for x in d["variants"][0])
             main.append("    gen_c19::assert_sized::<%s>();" % ty)
             main.append("    gen_c19::report::<%s>(%s, true);" % (ty, sizes))
         else:
@@ -323,7 +373,7 @@ def rust_source(ints):
             unit_only = all(len(v) == 0 for v in d["variants"])
             sizes = "size_of::<u8>()" if unit_only else "0"
         else:
-            sizes = " + ".join("size_of::<%s>()" % FIELDS[inst(d, x)][0] for x in d["variants"][0]) or "0"
+            sizes = " + ".join("size_of::<%s>()" % finfo(d, x)[0] for x in d["variants"][0]) or "0"
         if m == 0:
             main.append("    gen_c19::assert_align1::<%s>();" % ty)
             main.append("    gen_c19::report_plain::<%s>(%s);" % (ty, sizes))
@@ -660,10 +710,12 @@ def _gen_fields(rng, n, wide_p, with_t=False):
         else:
             fs.append(rng.choice(ALIGN1_FIELDS))
     if with_t:
+        # mostly the bare parameter, sometimes the parameter inside a tuple field
+        t = rng.weighted([(T_CODE, 70), (T_U8_CODE, 15), (U8_T_CODE, 15)])
         if fs:
-            fs[rng.below(len(fs))] = T_CODE
+            fs[rng.below(len(fs))] = t
         else:
-            fs = [T_CODE]
+            fs = [t]
     return fs
 
 
@@ -807,7 +859,42 @@ def gen_cases(rng, tier):
                         add(enc(mcode, form, g, [], [fl]), "sys")
                 for mcode in (5, 6):
                     add(enc(mcode, 0, g, [], [fl], [0]), "sys")
-    total = 1200 if tier == "quick" else 5000
+    # tuple field types (align1.rs 40-66: a tuple is Align1 iff EVERY element is).  derive(Align1) x {no repr, repr(C),
+    # repr(C, packed), repr(transparent) where rustc allows it: alone or next to a `()`} x {struct, tuple struct} x every
+    # tuple type alone / first / last; the parameter inside a tuple, (T, u8) and (u8, T), for T = u8 | u16 | u64 (the
+    # impl for the tuple is then selected at the instantiation); unions; and every zero-copy flavour / a sized part on
+    # each tuple type (no bytemuck marker exists for tuples: all of them must be rejected)
+    for form in (0, 1):
+        for t in TUPLE_FIELDS:
+            for r in ([], [(1, 0)], C_PACKED):
+                for fl in ([t], [t, 0], [0, t]):
+                    add(enc(0, form, 0, r, [fl]), "sys")
+            for fl in ([t], [t, 2], [2, t]):
+                add(enc(0, form, 0, [(2, 0)], [fl]), "sys")
+        for inst_code in (0, 10, 12):
+            for t in (T_U8_CODE, U8_T_CODE):
+                for r in ([], [(1, 0)], C_PACKED):
+                    for fl in ([t], [t, 1], [1, t]):
+                        add(enc(0, form, g_of(inst_code), r, [fl]), "sys")
+                for fl in ([t], [t, 2], [2, t]):
+                    add(enc(0, form, g_of(inst_code), [(2, 0)], [fl]), "sys")
+    for t in (18, 34, 36, 37):
+        add(enc(0, 3, 0, [], [[t, 0]]), "sys")
+        add(enc(0, 3, 0, [(1, 0)], [[0, t]]), "sys")
+    for inst_code in (0, 12):
+        for t in (T_U8_CODE, U8_T_CODE):
+            add(enc(0, 3, g_of(inst_code), [], [[t, 0]]), "sys")
+            add(enc(0, 3, g_of(inst_code, 2), [(1, 0)], [[0, t]]), "sys")
+            add(enc(0, 0, g_of(inst_code, 2), [(1, 0)], [[t, 1]]), "sys")
+            add(enc(0, 0, g_of(inst_code, 1), [], [[1, t]]), "sys")
+    for t in TUPLE_FIELDS:
+        for mcode in (1, 2, 3, 4):
+            add(enc(mcode, 0, 0, [], [[t]]), "sys")
+        add(enc(5, 0, 0, [], [[0, t]], [0]), "sys")
+    for t in (T_U8_CODE, U8_T_CODE):
+        for mcode in (1, 2, 5, 6):
+            add(enc(mcode, 0, g_of(0), [], [[t]], [0] if mcode >= 5 else []), "sys")
+    total = 1800 if tier == "quick" else 5600       # 1486 of them are the fixed slices above, the rest is random
     guard = 0
     while len(out) < total and guard < total * 20:
         guard += 1
@@ -862,8 +949,8 @@ def predicate(ints, obs):
     align, size, total, npat = obs[1], obs[2], obs[3], obs[4]
     table = obs[5:5 + npat]
     if m in (5, 6):
-        sized = [inst(d, x) for x in d["variants"][0]]
-        comps = ([sum(FIELDS[x][1] for x in sized) == 0] if sized else []) + [UFIELDS[u][1] for u in d["ufields"]]
+        sized = [finfo(d, x) for x in d["variants"][0]]
+        comps = ([sum(x[1] for x in sized) == 0] if sized else []) + [UFIELDS[u][1] for u in d["ufields"]]
         for i, z in enumerate(comps[:-1]):
             if z:
                 return "unsized struct with a zero-sized component in position %d of %d (not last) compiles" % (i, len(comps))
@@ -873,15 +960,20 @@ def predicate(ints, obs):
     elif d["form"] == 2:
         fields = None
     else:
-        fields = [inst(d, x) for x in d["variants"][0]]
+        fields = [finfo(d, x) for x in d["variants"][0]]
     if fields is not None and d["form"] != 3:
-        want = sum(FIELDS[x][1] for x in fields)
+        want = sum(x[1] for x in fields)
         if total != want:
             return "harness field table out of sync with rustc: sum of field sizes %d, table says %d" % (total, want)
     if align != 1:
         return "%s certifies Align1 but align_of = %d" % (MACROS[m], align)
     if m == 0:
         return None
+    # tuples are neither NoUninit nor CheckedBitPattern nor Pod: nothing validates their bytes
+    for x in fields or []:
+        if x[3] == "tuple":
+            return "%s accepted the tuple field %s, which has no bit-pattern validator (not CheckedBitPattern / NoUninit / Pod)" % (
+                MACROS[m], x[0])
     # zero_copy / sized part: no padding, every field's bit pattern validated
     if size != total:
         return "%s accepted a type with padding: size_of = %d, sum of field sizes = %d" % (MACROS[m], size, total)
@@ -894,7 +986,7 @@ def predicate(ints, obs):
         else:
             exp, off = True, 0
             for x in fields:
-                sz, kind = FIELDS[x][1], FIELDS[x][3]
+                sz, kind = x[1], x[3]
                 exp = exp and _valid_bytes(kind, p[off:off + sz])
                 off += sz
         if bool(got) != exp:
@@ -903,9 +995,9 @@ def predicate(ints, obs):
     # zero_copy and the generated sized part also certify Zeroable: the all-zero bytes have to be a valid value
     if fields is not None:
         for x in fields:
-            sz, kind = FIELDS[x][1], FIELDS[x][3]
+            sz, kind = x[1], x[3]
             if sz > 0 and not _valid_bytes(kind, [0] * sz):
-                return "%s certifies Zeroable for a type whose field %s does not accept the all-zero bytes" % (MACROS[m], FIELDS[x][0])
+                return "%s certifies Zeroable for a type whose field %s does not accept the all-zero bytes" % (MACROS[m], x[0])
     return None
 
 
@@ -947,20 +1039,22 @@ def shrink(ints):
         for i in range(len(v)):
             nv = [list(x) for x in vs]
             del nv[vi][i]
-            if g and not any(x == T_CODE for y in nv for x in y):
+            if g and not any(x in PARAM_CODES for y in nv for x in y):
                 continue
             yield enc(m, f, g, reprs, nv, uf)
     if f == 2 and len(vs) > 1:
         for vi in range(len(vs)):
             yield enc(m, f, g, reprs, vs[:vi] + vs[vi + 1:], uf)
     if g:
-        yield enc(m, f, 0, reprs, [[inst_code if x == T_CODE else x for x in v] for v in vs], uf)
+        conc = [[concrete(x, inst_code) for x in v] for v in vs]
+        if all(x is not None for v in conc for x in v):
+            yield enc(m, f, 0, reprs, conc, uf)
     for i in range(len(uf)):
         if len(uf) > 1:
             yield enc(m, f, g, reprs, vs, uf[:i] + uf[i + 1:])
     for vi, v in enumerate(vs):
         for i, x in enumerate(v):
-            if x not in (0, T_CODE):
+            if x not in (0,) + PARAM_CODES:
                 nv = [list(y) for y in vs]
                 nv[vi][i] = 0
                 yield enc(m, f, g, reprs, nv, uf)
